@@ -149,11 +149,18 @@ def program_start(ctx):
         evs = o.path.events
         # the layout vector = the first vector pushed to
         pushes = [e for e in evs if e[0] == "push"]
-        if not pushes:
-            if any(e[0] == "push" for o2 in oks for e in o2.path.events):
+        argc_pushed = lambda ps: any(U.strip(e[2]) == ("len", ("argv",)) for e in ps)
+        if not pushes or not argc_pushed(pushes):
+            if any(argc_pushed([e for e in o2.path.events if e[0] == "push"]) for o2 in oks):
                 obad = obad or "no layout pushes"
             else:
+                # no path ever pushes argc to a vector: the frame is assembled some other way (iterator chains, ...)
                 no_model = "the frame is not built by pushing to a vector: outside the layout model"
+                for x in [x for x in evs if x[0] == "anywhere"]:
+                    i = evs.index(x)
+                    term = [e for e in evs[:i] if e[0] == "push" and A.is_int(U.strip(e[2])) and U.strip(e[2])[1] == 0]
+                    if not term and not ends_with_nul(x[1]):
+                        sbad = sbad or "a string is allocated without its NUL terminator"
             continue
         layout_loc = pushes[0][1]
         lay = [e for e in pushes if e[1] == layout_loc]
@@ -179,7 +186,7 @@ def program_start(ctx):
         for x in [x for x in evs if x[0] == "anywhere"]:
             i = evs.index(x)
             term = [e for e in evs[:i] if e[0] == "push" and e[1] != layout_loc and A.is_int(U.strip(e[2])) and U.strip(e[2])[1] == 0]
-            if not term:
+            if not term and not ends_with_nul(x[1]):
                 sbad = sbad or "a string is allocated without its NUL terminator"
         # alignment test before RSP store
         rsp = [e for e in evs if e[0] == "reg_write" and U.reg_name(facts, e[2]) == "RSP"]
@@ -254,6 +261,35 @@ def program_start(ctx):
     ck.sample({"rule": "C17", "paths": len(outs), "success_paths": len(oks), "exact_frame_paths": n_slot})
 
 
+def ends_with_nul(data, depth=0):
+    """the byte string handed to the allocator ends with a 0 byte by construction: `x.chain(once(0)).collect()`,
+    `[x, &[0]].concat()`, ..."""
+    d = data
+    while isinstance(d, tuple) and d and d[0] in ("w", "deref", "to_vec") and isinstance(d[1], tuple):
+        d = d[1]
+    if not isinstance(d, tuple) or not d or depth > 6:
+        return False
+    if d[0] == "ret" and isinstance(d[2], tuple) and d[2]:
+        meth = str(d[1]).rsplit("::", 1)[-1]
+        if meth in ("collect", "to_vec", "into_iter", "iter", "copied", "cloned", "to_owned", "into", "from"):
+            return ends_with_nul(d[2][0], depth + 1)
+        if meth == "chain" and len(d[2]) == 2:
+            return ends_with_nul(d[2][1], depth + 1)
+        if meth == "once" and len(d[2]) == 1:
+            v = U.strip(d[2][0])
+            return A.is_int(v) and v[1] == 0
+        if meth in ("concat", "join") and len(d[2]) >= 1:
+            return ends_with_nul(d[2][0], depth + 1)
+    if d[0] == "agg" and d[1] == "array" and d[3]:
+        last = d[3][-1]
+        if A.is_int(U.strip(last)):
+            return U.strip(last)[1] == 0
+        return ends_with_nul(last, depth + 1)
+    if d[0] == "ref":
+        return False
+    return False
+
+
 def string_source(o, anyw_event):
     """'argv' | 'envp': which parameter the allocated bytes derive from"""
     r = repr(anyw_event[1]) + repr(anyw_event[2])
@@ -296,7 +332,10 @@ def plain(ctx):
             bad = bad or "RSP writes=%d stack_top stores=%d areas=%d" % (len(rsp), len(st), len(sa))
             continue
         v = U.strip(rsp[0][3])
-        if not (v[0] == "bin" and v[1] == "BitAnd" and A.is_int(v[3]) and (v[3][1] & 0xF) == 0):
+        # aligned by construction, however it is spelled (`x & !0xf`, `x - x % 16`, ...): the low four bits of the value are
+        # zero for every x (bit provenance)
+        low4 = A.bitvec(rsp[0][3], o.path)[:4]
+        if not (v[0] == "bin" and v[1] == "BitAnd" and A.is_int(v[3]) and (v[3][1] & 0xF) == 0) and low4 != [0, 0, 0, 0]:
             bad = bad or "RSP := %s is not aligned by construction" % A.show(v)
         d = U.affine_norm(("bin", "Sub", st[-1][2], rsp[0][3], 64))
         if d[0] or d[1] != 8:
